@@ -130,12 +130,9 @@ Section Proofs.
   Notation vis := (vis brepr excl_re c cs it).
   Notation vis_doc := (vis_doc brepr excl_re c).
   Notation leaf_match := (leaf_match brepr re_search c cs it).
-  Notation leaf_raises := (leaf_raises c it).
   Notation atom_match := (atom_match brepr re_search c cs it).
-  Notation atom_raises := (atom_raises c it).
   Notation str_match := (str_match re_search c cs it).
   Notation num_match := (num_match brepr re_search c it).
-  Notation num_raises := (num_raises c it).
   Notation text_match := (text_match brepr re_search re_text c it).
   Notation path_match := (path_match brepr re_search re_text c cs it).
   Notation attrs_of := (attrs_of str_attrs bytes_attrs it).
@@ -148,7 +145,6 @@ Section Proofs.
   Notation matches_spec_doc := (matches_spec_doc brepr re_search excl_re c cs it).
   Notation paths_spec := (paths_spec brepr re_search excl_re re_text c cs it).
   Notation paths_spec_doc := (paths_spec_doc brepr re_search excl_re re_text c cs it).
-  Notation raises_spec := (raises_spec brepr excl_re c cs it).
   Notation k16_guard := (k16_guard c).
   Notation k16b_guard := (k16b_guard brepr excl_re c).
 
@@ -156,7 +152,6 @@ Section Proofs.
      below it *)
   Inductive local_ev (p : path) (w : value) : event -> Prop :=
   | LValue : leaf_match w = true -> local_ev p w (EvValue p w)
-  | LRaise : leaf_raises w = true -> local_ev p w EvRaise
   | LAttr : forall n, In n (attrs_of w) -> text_match (attr_text p n) = true ->
                       local_ev p w (EvAttr p n)
   | LPath : forall kvs k ch, w = VDict kvs -> In (k, ch) kvs ->
@@ -195,9 +190,9 @@ Section Proofs.
 
   Lemma search_numbers_iff : forall a p ev,
     In ev (search_numbers a p) <->
-    (num_match a = true /\ ev = EvValue p (VAtom a)) \/ (num_raises = true /\ ev = EvRaise).
+    num_match a = true /\ ev = EvValue p (VAtom a).
   Proof.
-    intros a p ev. unfold SearchModel.search_numbers, SearchSpec.num_match, SearchSpec.num_raises, eq_item.
+    intros a p ev. unfold SearchModel.search_numbers, SearchSpec.num_match, eq_item.
     destruct it as [b|[|]|w].
     - destruct (py_eq b a); cbn [orb]; [crush|].
       destruct (strict c); cbn [negb andb]; [crush|].
@@ -220,15 +215,13 @@ Section Proofs.
   Lemma local_ev_atom : forall p a ev,
     local_ev p (VAtom a) ev <->
     (atom_match a = true /\ ev = EvValue p (VAtom a))
-    \/ (atom_raises a = true /\ ev = EvRaise)
     \/ (exists n, In n (attrs_of (VAtom a)) /\ text_match (attr_text p n) = true /\ ev = EvAttr p n).
   Proof.
     intros p a ev. split.
     - intro H. inversion H; subst; auto; try discriminate.
-      right. right. eauto.
-    - intros [[H1 H2]|[[H1 H2]|[n [H1 [H2 H3]]]]]; subst.
+      right. eauto.
+    - intros [[H1 H2]|[n [H1 [H2 H3]]]]; subst.
       + apply LValue. exact H1.
-      + apply LRaise. exact H1.
       + eapply LAttr; eauto.
   Qed.
 
@@ -250,8 +243,7 @@ Section Proofs.
     { unfold eq_item. destruct it as [[| | | | |]|b|w]; try discriminate; auto. destruct a; try discriminate; reflexivity. }
     assert (Hm : atom_match a = false).
     { destruct a; try discriminate; cbn; unfold SearchSpec.str_match; destruct it as [[| | | | |]|b|w]; try discriminate; auto. }
-    assert (Hr : atom_raises a = false) by (destruct a; try discriminate; reflexivity).
-    rewrite Heq, Hm, Hr. cbn [app].
+    rewrite Heq, Hm. cbn [app].
     assert (Hev : In ev (match a with AStr _ => attr_events str_attrs p | ABytes _ => attr_events bytes_attrs p | _ => [] end)
                   <-> exists n, In n (attrs_of (VAtom a)) /\ text_match (attr_text p n) = true /\ ev = EvAttr p n).
     { unfold SearchSpec.attrs_of. rewrite Hos. destruct a; try discriminate; rewrite attr_events_iff; tauto. }
@@ -272,7 +264,7 @@ Section Proofs.
         * rewrite local_ev_atom.
           assert (Hos : obj_searched = false) by (destruct it as [[| | | | |]|b|w]; try discriminate; auto).
           rewrite (attrs_of_unsearched _ Hos).
-          destruct a as [| | | |s|s]; try discriminate; cbn [SearchSpec.atom_match SearchSpec.atom_raises];
+          destruct a as [| | | |s|s]; try discriminate; cbn [SearchSpec.atom_match];
             unfold SearchSpec.str_match;
             destruct it as [[| | | | |]|b|w]; try discriminate; crush; try noattr.
         * assert (Hn : is_number a = false) by (destruct a; try discriminate; auto). rewrite Hn.
@@ -282,7 +274,7 @@ Section Proofs.
       destruct a as [|b0|z0|t0|s|s]; try discriminate; cbn [is_number].
       + (* None *)
         unfold SearchModel.search_obj_atom, eq_item. rewrite app_nil_r.
-        cbn [SearchSpec.atom_match SearchSpec.atom_raises].
+        cbn [SearchSpec.atom_match].
         destruct it as [b|b|w].
         * destruct (py_eq b ANone) eqn:E.
           -- apply py_eq_none in E. subst b. crush; try noattr.
@@ -290,9 +282,9 @@ Section Proofs.
              destruct b; crush; try noattr.
         * crush; try noattr.
         * crush; try noattr.
-      + rewrite search_numbers_iff. cbn [SearchSpec.atom_match SearchSpec.atom_raises]. crush; try noattr.
-      + rewrite search_numbers_iff. cbn [SearchSpec.atom_match SearchSpec.atom_raises]. crush; try noattr.
-      + rewrite search_numbers_iff. cbn [SearchSpec.atom_match SearchSpec.atom_raises]. crush; try noattr.
+      + rewrite search_numbers_iff. cbn [SearchSpec.atom_match]. crush; try noattr.
+      + rewrite search_numbers_iff. cbn [SearchSpec.atom_match]. crush; try noattr.
+      + rewrite search_numbers_iff. cbn [SearchSpec.atom_match]. crush; try noattr.
   Qed.
 
   (* ---------- the equality shortcut of __search_iterable ---------- *)
@@ -315,7 +307,7 @@ Section Proofs.
   Qed.
 
   Lemma shortcut_facts : forall a, atom_item = true -> shortcut (VAtom a) = true ->
-    atom_match a = true /\ atom_raises a = false /\ attrs_of (VAtom a) = [].
+    atom_match a = true /\ attrs_of (VAtom a) = [].
   Proof.
     intros a Hai H. unfold SearchModel.shortcut in H. apply andb_true_iff in H. destruct H as [_ H].
     unfold thing_eq_item, eq_item in H.
@@ -323,7 +315,7 @@ Section Proofs.
     { destruct (is_strlike a) eqn:Hs; [|apply attrs_of_notstr; auto]. apply attrs_of_unsearched.
       unfold SearchSpec.obj_searched. destruct it as [[| | | | |]|b|w]; try discriminate; auto.
       destruct a; try discriminate; destruct cs; discriminate. }
-    split; [|split]; [| |exact Hat]; clear Hat;
+    split; [|exact Hat]; clear Hat;
     destruct it as [b|b|w] eqn:Eit; try discriminate;
     destruct a as [|b0|z0|t0|s|s].
     - assert (b = ANone) by (apply py_eq_none; destruct cs; exact H). subst b. reflexivity.
@@ -341,14 +333,6 @@ Section Proofs.
       apply py_eq_bytes in H'. destruct H' as [i [Hb Hi]]. subst b.
       cbn [SearchSpec.atom_match]. unfold SearchSpec.str_match. cbn [negb andb].
       destruct (match_string c); [exact Hi|]. apply pystr_eqb_eq in Hi. rewrite Hi. apply contains_sub_refl.
-    - reflexivity.
-    - reflexivity.
-    - reflexivity.
-    - reflexivity.
-    - assert (H' : py_eq b (AStr (fold_s s)) = true) by (unfold SearchModel.fold_s; destruct cs; exact H).
-      apply py_eq_str in H'. destruct H' as [i [Hb _]]. subst b. reflexivity.
-    - assert (H' : py_eq b (ABytes (fold_s s)) = true) by (unfold SearchModel.fold_s; destruct cs; exact H).
-      apply py_eq_bytes in H'. destruct H' as [i [Hb _]]. subst b. reflexivity.
   Qed.
 
   (* with an atom item, what equals the item also matches by its comparer *)
@@ -552,7 +536,6 @@ Section Proofs.
   Proof.
     intros p w ev H. inversion H; subst; eauto.
     - destruct w; try discriminate; eauto.
-    - destruct w; try discriminate; eauto.
     - left. eapply attrs_of_nonatom; eauto.
   Qed.
 
@@ -595,9 +578,8 @@ Section Proofs.
           destruct HH as [[Hv Hl]|[Hv1 [Hv2 _]]]; [|congruence].
           apply negb_true_iff in Hv.
           rewrite Hv, Hi. cbn [orb]. rewrite app_nil_r in Hl. apply iter_dict_in.
-          inversion Hl as [Hm|Hr|n Hn Ht|kvs' k ch Hw Hink Hpm].
+          inversion Hl as [Hm|n Hn Ht|kvs' k ch Hw Hink Hpm].
           -- cbn in Hm. discriminate.
-          -- cbn in Hr. discriminate.
           -- apply attrs_of_nonatom in Hn. destruct Hn; discriminate.
           -- inversion Hw; subst kvs'. exists (k, ch). split; auto. left. cbn [fst snd].
              unfold SearchModel.path_event. apply path_test_iff. split; [exact Hpm|left; auto].
@@ -842,13 +824,6 @@ Section Proofs.
     - intros [H1 [H2 H3]]. subst. apply LAttr; auto.
   Qed.
 
-  Lemma local_ev_raise : forall p w, local_ev p w EvRaise <-> leaf_raises w = true.
-  Proof.
-    intros p w. split.
-    - intro H. inversion H; subst; auto.
-    - intro H. apply LRaise; auto.
-  Qed.
-
   Lemma vis_true_false : forall rest pre obj, vis true pre obj rest = true -> vis false pre obj rest = true.
   Proof.
     induction rest as [|s r IH]; intros pre obj H; [exact H|].
@@ -932,18 +907,6 @@ Section Proofs.
       split; auto. exists w. auto.
     - intros [Hi [w [Hg [Hv [H1 H2]]]]]. split; auto. exists q, w. split; auto. left. split; auto.
       apply local_ev_attr. auto.
-  Qed.
-
-  Theorem raise_iff : forall obj, wf obj = true ->
-    In EvRaise (search obj []) <->
-    item_excl = false /\
-    exists q w, get_at obj q = Some w /\ vis true [] obj q = true /\ leaf_raises w = true.
-  Proof.
-    intros obj Hwf. rewrite search_iff by exact Hwf. unfold spec_ev. cbn [app]. split.
-    - intros [Hi [rest [w [Hg [[Hv Hl]|[_ [_ Hev]]]]]]]; [|discriminate]. apply local_ev_raise in Hl. split; auto.
-      exists rest, w. auto.
-    - intros [Hi [q [w [Hg [Hv H]]]]]. split; auto.
-      exists q, w. split; auto. left. split; auto. apply local_ev_raise. auto.
   Qed.
 
   (* ---------- against the list specifications ---------- *)
@@ -1229,19 +1192,6 @@ Section Proofs.
       intros a Ha. subst w. rewrite child_atom in Hc. discriminate.
   Qed.
 
-  (* ---------- TypeError ---------- *)
-
-  Theorem raise_exact : forall obj, wf obj = true ->
-    (In EvRaise (search obj []) <-> raises_spec obj = true).
-  Proof.
-    intros obj Hwf. rewrite raise_iff by exact Hwf. unfold SearchSpec.raises_spec.
-    rewrite andb_true_iff, negb_true_iff, existsb_exists. split.
-    - intros [Hi [q [w [Hg [Hv H]]]]]. split; auto.
-      exists (q, w). split; [apply in_locations_root; auto|]. cbn [fst snd]. rewrite Hv, H. reflexivity.
-    - intros [Hi [[q w] [Hl H]]]. split; auto. cbn [fst snd] in H.
-      apply in_locations_root in Hl; auto. apply andb_true_iff in H. destruct H as [Hv H]. exists q, w. auto.
-  Qed.
-
   (* ---------- finding K16f confined ---------- *)
 
   Theorem no_attr_partial : forall obj, wf obj = true -> obj_searched = false ->
@@ -1257,34 +1207,39 @@ End Proofs.
 Lemma deep_search_ok : forall brepr re_search excl_re re_text sa ba c item obj evs,
   deep_search brepr re_search excl_re re_text sa ba c item obj = ROk evs ->
   exists cs it, prepare brepr c item = PItem cs it
-                /\ evs = search brepr re_search excl_re re_text sa ba c cs it obj []
-                /\ ~ In EvRaise evs.
+                /\ evs = search brepr re_search excl_re re_text sa ba c cs it obj [].
 Proof.
   intros brepr re_search excl_re re_text sa ba c item obj evs H. unfold deep_search in H.
-  destruct (prepare brepr c item) as [|cs it]; [discriminate|].
-  destruct (existsb is_raise _) eqn:E; [discriminate|]. inversion H; subst evs.
-  exists cs, it. repeat split; auto. intro Hin.
-  assert (existsb is_raise (search brepr re_search excl_re re_text sa ba c cs it obj []) = true).
-  { apply existsb_exists. exists EvRaise. auto. }
-  congruence.
+  destruct (prepare brepr c item) as [|cs it]; [discriminate|]. inversion H; subst evs.
+  exists cs, it. auto.
 Qed.
 
+(* the traversal never raises: the constructor raises exactly when __init__ does *)
 Lemma deep_search_raise : forall brepr re_search excl_re re_text sa ba c item obj,
   deep_search brepr re_search excl_re re_text sa ba c item obj = RRaise <->
-  prepare brepr c item = PRaise
-  \/ exists cs it, prepare brepr c item = PItem cs it
-                   /\ In EvRaise (search brepr re_search excl_re re_text sa ba c cs it obj []).
+  prepare brepr c item = PRaise.
 Proof.
   intros brepr re_search excl_re re_text sa ba c item obj. unfold deep_search.
-  destruct (prepare brepr c item) as [|cs it].
-  - split; auto.
-  - destruct (existsb is_raise _) eqn:E.
-    + split; auto. intros _. right. exists cs, it. split; auto.
-      apply existsb_exists in E. destruct E as [e [Hin He]]. destruct e; try discriminate. exact Hin.
-    + split; [discriminate|]. intros [H|[cs' [it' [H Hin]]]]; [discriminate|]. inversion H; subst.
-      assert (existsb is_raise (search brepr re_search excl_re re_text sa ba c cs' it' obj []) = true).
-      { apply existsb_exists. exists EvRaise. auto. }
-      congruence.
+  destruct (prepare brepr c item) as [|cs it]; split; auto; discriminate.
+Qed.
+
+(* __init__ raises exactly for use_regexp with an item that is not a str / bytes *)
+Definition item_is_text (item : value) : bool :=
+  match item with VAtom (AStr _) | VAtom (ABytes _) => true | _ => false end.
+Definition loose_number (c : config) (item : value) : bool :=
+  negb (strict c) && match item with VAtom a => is_number a | _ => false end.
+Lemma prepare_raise : forall brepr c item,
+  prepare brepr c item = PRaise <->
+  use_regexp c = true /\ item_is_text item = false /\ loose_number c item = false.
+Proof.
+  intros brepr c item. unfold loose_number. destruct item as [a| | | | |]; cbn [prepare item_is_text].
+  - unfold prepare_atom. destruct (use_regexp c), (strict c), (cs_flag c), a as [|[|]| | | |]; cbn;
+      intuition (try discriminate; auto).
+  - destruct (use_regexp c); rewrite andb_false_r; intuition discriminate.
+  - destruct (use_regexp c); rewrite andb_false_r; intuition discriminate.
+  - destruct (use_regexp c); rewrite andb_false_r; intuition discriminate.
+  - destruct (use_regexp c); rewrite andb_false_r; intuition discriminate.
+  - destruct (use_regexp c); rewrite andb_false_r; intuition discriminate.
 Qed.
 
 (* the normalised item searches str objects as custom objects only for the item None or a container *)
@@ -1386,15 +1341,15 @@ Example str_in_bytes_not_found :
   = ROk [EvValue [SIdx 1] (VAtom (AStr (s2p "abc")))].
 Proof. vm_compute. reflexivity. Qed.
 
-(* K16i, the TypeError that is left: DeepSearch([1], b'1', use_regexp=True, strict_checking=False) *)
+(* K16i (fixed in /repo by bcd9dc1): a bytes pattern is no longer applied to the text of a number *)
 Definition k16i_cfg := mkConfig false false true false [] [].
-Definition k16i_obj := VList [VAtom (AInt 1)].
+Definition k16i_obj := VList [VAtom (AInt 1); VAtom (ABytes (s2p "1"))].
 Definition k16i_item := VAtom (ABytes (s2p "1")).
-Theorem no_raise_refuted :
-  wf k16i_obj = true /\
-  prepare id_repr k16i_cfg k16i_item <> PRaise /\
-  deep_search id_repr no_re no_re [] [] [] k16i_cfg k16i_item k16i_obj = RRaise.
-Proof. split; [reflexivity|]. split; [discriminate|vm_compute; reflexivity]. Qed.
+Definition k16i_re (s : pystr) : bool := pystr_eqb s (s2p "1").
+Example bytes_pattern_on_numbers :
+  deep_search id_repr k16i_re no_re [] [] [] k16i_cfg k16i_item k16i_obj
+  = ROk [EvValue [SIdx 1] (VAtom (ABytes (s2p "1")))].
+Proof. vm_compute. reflexivity. Qed.
 
 (* K16h: a container item is found only as an ITEM of a list / tuple / set:
    DeepSearch({'a': [1, 2]}, [1, 2]) == {}  although root['a'] == [1, 2];
@@ -1439,39 +1394,13 @@ Example guards_satisfiable :
   deep_search id_repr no_re no_re [] [] [] guard_cfg guard_item_v guard_obj = ROk guard_evs.
 Proof. repeat split; vm_compute; reflexivity. Qed.
 
-(* ---------- the only TypeError left (finding K16i confined) ---------- *)
+(* ---------- DeepSearch never raises, apart from the documented TypeError of __init__ ---------- *)
 
-Definition item_not_bytes (item : value) : bool :=
-  match item with VAtom a => atom_not_bytes a | _ => true end.
-
-Lemma prepare_re_bytes : forall brepr c item cs,
-  prepare brepr c item = PItem cs (ERe true) -> use_regexp c = true /\ item_not_bytes item = false.
+Theorem never_raises : forall brepr re_search excl_re re_text sa ba c item obj,
+  deep_search brepr re_search excl_re re_text sa ba c item obj = RRaise <->
+  use_regexp c = true /\ item_is_text item = false /\ loose_number c item = false.
 Proof.
-  intros brepr c item cs H. destruct item as [a| | | | |]; cbn [prepare] in H;
-    try (destruct (use_regexp c); discriminate).
-  unfold prepare_atom in H. destruct (use_regexp c) eqn:Hre.
-  - split; auto. destruct a; cbn in H;
-      repeat (match type of H with context [if ?b then _ else _] => destruct b end; cbn in H);
-      try discriminate; reflexivity.
-  - repeat (match type of H with context [if ?b then _ else _] => destruct b end); discriminate.
-Qed.
-
-(* beyond the documented TypeError of __init__ (use_regexp with a non-string item) the
-   constructor raises only for a bytes regular expression under strict_checking=False *)
-Theorem no_raise_partial : forall brepr re_search excl_re re_text sa ba c item obj,
-  wf obj = true ->
-  item_not_bytes item || strict c || negb (use_regexp c) = true ->
-  deep_search brepr re_search excl_re re_text sa ba c item obj = RRaise ->
-  prepare brepr c item = PRaise.
-Proof.
-  intros brepr re_search excl_re re_text sa ba c item obj Hwf Hguard H.
-  apply deep_search_raise in H. destruct H as [H|[cs [it [Hp H]]]]; auto. exfalso.
-  apply raise_iff in H; auto. destruct H as [_ [q [w [_ [_ Hr]]]]].
-  destruct w as [a| | | | |]; try discriminate. cbn in Hr.
-  assert (Hn : num_raises c it = true) by (destruct a; try discriminate; exact Hr).
-  unfold num_raises in Hn. destruct it as [|[|]|]; try discriminate.
-  destruct (prepare_re_bytes _ _ _ _ Hp) as [H1 H2]. apply negb_true_iff in Hn.
-  rewrite H1, H2, Hn in Hguard. discriminate.
+  intros. rewrite deep_search_raise. apply prepare_raise.
 Qed.
 
 (* ---------- the result dictionaries (keyed by path text) ---------- *)
@@ -1515,7 +1444,7 @@ Section Dicts.
   Proof.
     induction evs as [|e r IH]; intros d t v H; cbn [fold_left] in H; auto.
     apply IH in H. destruct H as [H|[q [H1 H2]]].
-    - destruct e as [p w|p w|p n|]; cbn [vstep] in H; auto.
+    - destruct e as [p w|p w|p n]; cbn [vstep] in H; auto.
       apply upsert_in in H. destruct H as [H|H]; auto. inversion H; subst.
       right. exists p. split; auto. left. auto.
     - right. exists q. split; auto. right. auto.
@@ -1528,7 +1457,7 @@ Section Dicts.
     induction evs as [|e r IH]; intros d; cbn [fold_left].
     - split; [eauto|intros q v []].
     - destruct (IH (vstep d e)) as [IH1 IH2]. split.
-      + intros t v H. destruct e as [p w|p w|p n|]; cbn [vstep] in *; eauto.
+      + intros t v H. destruct e as [p w|p w|p n]; cbn [vstep] in *; eauto.
         destruct (upsert_keeps_key _ (render brepr p) w d t v H) as [v'' Hv]. eauto.
       + intros q v [H|H]; [|eauto]. subst e. cbn [vstep] in *.
         apply (IH1 (render brepr q) v). apply upsert_has.
@@ -1566,7 +1495,7 @@ Section Final.
 
   Lemma final_evs : evs = search brepr re_search excl_re re_text sa ba c cs it obj [].
   Proof.
-    destruct (deep_search_ok _ _ _ _ _ _ _ _ _ _ Hrun) as [cs' [it' [H1 [H2 _]]]].
+    destruct (deep_search_ok _ _ _ _ _ _ _ _ _ _ Hrun) as [cs' [it' [H1 H2]]].
     rewrite Hprep in H1. inversion H1; subst. reflexivity.
   Qed.
 
@@ -1620,16 +1549,3 @@ Section Final.
   Qed.
 End Final.
 
-Lemma final_raise_exact : forall brepr re_search excl_re re_text sa ba c item obj,
-  wf obj = true ->
-  (deep_search brepr re_search excl_re re_text sa ba c item obj = RRaise <->
-   prepare brepr c item = PRaise
-   \/ exists cs it, prepare brepr c item = PItem cs it
-                    /\ raises_spec brepr excl_re c cs it obj = true).
-Proof.
-  intros brepr re_search excl_re re_text sa ba c item obj Hwf. rewrite deep_search_raise. split.
-  - intros [H|[cs [it [H1 H2]]]]; auto. right. exists cs, it. split; auto.
-    apply (raise_exact brepr re_search excl_re re_text sa ba c cs it obj Hwf). exact H2.
-  - intros [H|[cs [it [H1 H2]]]]; auto. right. exists cs, it. split; auto.
-    apply (raise_exact brepr re_search excl_re re_text sa ba c cs it obj Hwf). exact H2.
-Qed.
